@@ -809,25 +809,81 @@ fn main() {
     let doc: Value = serde_json::from_str(&text).expect("parse jobs");
     let jobs: Vec<Value> = doc["jobs"].as_array().expect("jobs").clone();
     let n = jobs.len();
-    let results: Vec<Mutex<Option<Value>>> = (0..n).map(|_| Mutex::new(None)).collect();
-    let next = std::sync::atomic::AtomicUsize::new(0);
-    let leaf_cache: LeafCache = Mutex::new(HashMap::new());
-    std::thread::scope(|s| {
-        for _ in 0..threads.max(1).min(n.max(1)) {
-            s.spawn(|| loop {
+    // A job of a mutated library may never return. Workers are plain threads; the main thread watches the start
+    // time of every running job: a job over its limit ("timeout_s" of the job, default 600 s) is recorded as
+    // {"harness_timeout": ..}, a replacement worker takes over the remaining jobs, and the process exits when all
+    // jobs are recorded (the stuck thread dies with the process).
+    use std::sync::Arc;
+    let jobs = Arc::new(jobs);
+    let results: Arc<Vec<Mutex<Option<Value>>>> = Arc::new((0..n).map(|_| Mutex::new(None)).collect());
+    let next = Arc::new(std::sync::atomic::AtomicUsize::new(0));
+    let leaf_cache: Arc<LeafCache> = Arc::new(Mutex::new(HashMap::new()));
+    let running: Arc<Mutex<HashMap<usize, std::time::Instant>>> = Arc::new(Mutex::new(HashMap::new()));
+    let spawn_worker = {
+        let (jobs, results, next, leaf_cache, running) = (jobs.clone(), results.clone(), next.clone(), leaf_cache.clone(), running.clone());
+        move || {
+            let (jobs, results, next, leaf_cache, running) = (jobs.clone(), results.clone(), next.clone(), leaf_cache.clone(), running.clone());
+            std::thread::spawn(move || loop {
                 let i = next.fetch_add(1, std::sync::atomic::Ordering::SeqCst);
-                if i >= n {
+                if i >= jobs.len() {
                     break;
                 }
+                running.lock().unwrap().insert(i, std::time::Instant::now());
                 let r = run_job(&jobs[i], &leaf_cache);
-                *results[i].lock().unwrap() = Some(r);
+                running.lock().unwrap().remove(&i);
+                let mut slot = results[i].lock().unwrap();
+                if slot.is_none() {
+                    *slot = Some(r);
+                }
             });
         }
-    });
+    };
+    for _ in 0..threads.max(1).min(n.max(1)) {
+        spawn_worker();
+    }
+    let mut timeouts = 0usize;
+    loop {
+        std::thread::sleep(std::time::Duration::from_millis(100));
+        let done = results.iter().filter(|r| r.lock().unwrap().is_some()).count();
+        if done >= n {
+            break;
+        }
+        if timeouts >= 6 {
+            // enough evidence; every stuck thread burns a core: record the rest as skipped and stop
+            next.store(n, std::sync::atomic::Ordering::SeqCst);
+            for r in results.iter() {
+                let mut slot = r.lock().unwrap();
+                if slot.is_none() {
+                    *slot = Some(json!({"build": "skipped", "harness_skipped": true}));
+                }
+            }
+            break;
+        }
+        let over: Vec<usize> = running
+            .lock()
+            .unwrap()
+            .iter()
+            .filter(|(i, t)| t.elapsed().as_secs() >= jobs[**i].get("timeout_s").and_then(|x| x.as_u64()).unwrap_or(600))
+            .map(|(i, _)| *i)
+            .collect();
+        for i in over {
+            running.lock().unwrap().remove(&i);
+            let mut slot = results[i].lock().unwrap();
+            if slot.is_none() {
+                *slot = Some(json!({"harness_timeout": jobs[i].get("timeout_s").and_then(|x| x.as_u64()).unwrap_or(600), "build": "timeout"}));
+                drop(slot);
+                timeouts += 1;
+                spawn_worker();
+            }
+        }
+    }
+    let results: Vec<Option<Value>> = results.iter().map(|r| r.lock().unwrap().clone()).collect();
     let mut out = String::new();
     for r in results {
-        out.push_str(&serde_json::to_string(&r.into_inner().unwrap().unwrap_or(Value::Null)).unwrap());
+        out.push_str(&serde_json::to_string(&r.unwrap_or(Value::Null)).unwrap());
         out.push('\n');
     }
     std::fs::write(&args[2], out).expect("write results");
+    // stuck worker threads (if any) die with the process
+    std::process::exit(0);
 }
